@@ -11,6 +11,7 @@ import (
 	"math/rand"
 	"net"
 	"os"
+	"slices"
 	"sort"
 	"strconv"
 	"strings"
@@ -89,6 +90,10 @@ type refRec struct {
 	isCheck  bool
 	qtick    uint64
 	active   []int
+	// the states named by the transition's steps (source and target of every step), when the machine
+	// logs steps; hasSteps = the transition carried any
+	touched  []int
+	hasSteps bool
 }
 
 type refTracer struct {
@@ -114,6 +119,23 @@ func (t *refTracer) TransitionEnd(tx *am.Transition) {
 		if v%2 == 1 {
 			r.active = append(r.active, i)
 		}
+	}
+	if len(tx.Steps) > 0 {
+		r.hasSteps = true
+		names := t.m.StateNames()
+		seen := map[int]bool{}
+		for _, st := range tx.Steps {
+			for _, nm := range []string{st.GetFromState(names), st.GetToState(names)} {
+				if nm == "" {
+					continue
+				}
+				if i := slices.Index(names, nm); i >= 0 && !seen[i] {
+					seen[i] = true
+					r.touched = append(r.touched, i)
+				}
+			}
+		}
+		sort.Ints(r.touched)
 	}
 	t.last = r.clocks
 	t.recs = append(t.recs, r)
@@ -147,6 +169,7 @@ type Run struct {
 	Records  int
 	Lookups  int
 	Navs     int
+	Touched  int
 }
 
 func u64s(t []uint64) string {
@@ -222,6 +245,10 @@ func Exec(d *debugger.Debugger, addr string, c Case) (*Run, *Snapshot) {
 	m := r.M
 	if c.Can {
 		m.SemLogger().EnableCan(true)
+	}
+	if c.Seed%2 == 0 {
+		// the machine logs the steps of its transitions: the debugger derives the touched states
+		m.SemLogger().EnableSteps(true)
 	}
 	if err := dbg.TransitionsToDbg(m, addr); err != nil {
 		run.Err = "TransitionsToDbg: " + err.Error()
@@ -339,6 +366,18 @@ func Exec(d *debugger.Debugger, addr string, c Case) (*Run, *Snapshot) {
 			if msg.Is1(snap.index, names[si]) {
 				act = append(act, si)
 			}
+		}
+		if !rr.queued && rr.hasSteps {
+			// (steps of the any-handlers name the pseudo-state Any, which the debugger maps to index -1:
+			// not a state, left out)
+			touched := slices.DeleteFunc(append([]int{}, p.StatesTouched...), func(i int) bool { return i < 0 })
+			sort.Ints(touched)
+			touched = slices.Compact(touched)
+			if core.ShowList(touched) != core.ShowList(rr.touched) {
+				run.Failures = append(run.Failures, fmt.Sprintf("record %d: the debugger derived touched states %v, the steps of that transition name %v", i, touched, rr.touched))
+				return run, nil
+			}
+			run.Touched++
 		}
 		if !rr.queued && core.ShowList(act) != core.ShowList(rr.active) {
 			run.Failures = append(run.Failures, fmt.Sprintf("record %d shows active states %v, the machine had %v", i, act, rr.active))
